@@ -532,7 +532,8 @@ def g_level(ck: Check, rule: str) -> None:
                 loop = l
                 break
             if isinstance(l, ast.While):
-                draws = [x for x in l.body if isinstance(x, ast.Assign) and text(x.targets[0]) == cur and isinstance(x.value, ast.Call)
+                draws = [x for x in l.body if isinstance(x, ast.Assign) and (text(x.targets[0]) == cur or isinstance(
+                             x.targets[0], ast.Tuple) and any(text(t_) == cur for t_ in x.targets[0].elts)) and isinstance(x.value, ast.Call)
                          and isinstance(x.value.func, ast.Attribute) and x.value.func.attr in ("pop", "popleft")]
                 if draws:
                     loop = l
